@@ -47,7 +47,7 @@ def check(ctx):
         ctx.ob('R1', fd, n, True if ok else False, 'difference of two wrapped positions' if ok else
                'an operand of the bond vector is not a wrapped position: a single-step image correction cannot reduce it')
     g = ret.geo if ret is not None else None
-    ok = g == ('FDIFF', 'MI')
+    ok = g in (('FDIFF', 'MI'), ('FDIFF', 'CW'))
     if g is not None and g[0] == 'FDIFF' and g[1] == 'W1':
         msg = f'only the `{g[2]}1` image correction is applied: bonds crossing a cell face in the other direction keep a length of about one cell'
     elif g == ('FDIFF', 'W2'):
@@ -58,7 +58,7 @@ def check(ctx):
     for e in uniq_events(it, {'to_cart'}, lambda f: f.qualname == fp.qualname):
         a = e['arg']
         lat = e['lattice']
-        ok = a is not None and a.geo == ('FDIFF', 'MI') and lat is not None and lat.frame == 'LAT'
+        ok = a is not None and a.geo in (('FDIFF', 'MI'), ('FDIFF', 'CW')) and lat is not None and lat.frame == 'LAT'
         ctx.ob('R1', fp, e['node'], True if ok else (None if a is None or a.geo is None else False),
                'Cartesian bond vectors in the trajectory lattice' if ok else f'Cartesian conversion of {geo_text(a.geo if a is not None else None)}')
     if not uniq_events(it, {'to_cart'}, lambda f: f.qualname == fp.qualname):
